@@ -737,12 +737,22 @@ impl Resolver {
             Some(cond) => Some(self.expression(&cond)?),
             None => None,
         };
-        let body = self.block(&branch.body)?;
+        let ss = self.stack.len();
+        let body = self.block(&branch.body);
+        self.stack.truncate(ss);
+        let body = body?;
         let span = branch.span;
         Ok(IfBranch { condition, body, span })
     }
 
     fn case_branch(&mut self, branch: &ParserCaseBranch) -> ResolveResult<CaseBranch> {
+        let ss = self.stack.len();
+        let res = self.case_branch_inner(branch);
+        self.stack.truncate(ss);
+        res
+    }
+
+    fn case_branch_inner(&mut self, branch: &ParserCaseBranch) -> ResolveResult<CaseBranch> {
         let variable = &branch
             .variable
             .as_ref()
@@ -819,7 +829,12 @@ impl Resolver {
                     branches.push(self.case_branch(branch)?);
                 }
                 let fall_through = match fall_through {
-                    Some(x) => Some(self.block(x)?),
+                    Some(x) => {
+                        let ss = self.stack.len();
+                        let block = self.block(x);
+                        self.stack.truncate(ss);
+                        Some(block?)
+                    }
                     None => None,
                 };
                 E::Case { to_match, branches, fall_through, span }
